@@ -35,7 +35,7 @@ def solovev_params(rng, sign, idx):
         # z axis symmetric about 0 with a node at z = 0: d psi/dz is exactly 0 on the mid-plane
         "z_symmetric": rng.random() < 0.4,
         "bvac_r": dyadic(rng, 1.0, 3.0, 3), "bvac_m": rng.choice([-1, 1]) * dyadic(rng, 0.5, 3.0, 3),
-        "nf": rng.randint(4, 12), "f0": dyadic(rng, 1.0, 4.0, 3), "f1": dyadic(rng, -1.0, 1.0, 3),
+        "nf": rng.randint(2, 12), "f0": dyadic(rng, 1.0, 4.0, 3), "f1": dyadic(rng, -1.0, 1.0, 3),
         "idx": idx,
     }
     return p
@@ -253,57 +253,146 @@ def sample_points(E, rng, n, dyadic_fraction=0.4):
 # ---------------------------------------------------------------------------------------------
 # profiles
 # ---------------------------------------------------------------------------------------------
-class Profile:
-    """A 1-D profile in one of the three forms the API accepts, with an independent evaluator."""
+# 2xN array profiles: every N from the smallest the interpolator accepts (2; N = 1 is rejected, see
+# rejected_profile_outcomes) upwards, in every container form, with integer entries, with knots exactly
+# 0 and 1 and with knots beyond [0, 1].  (n, container, flavour); the first twelve are what the quick tier
+# is guaranteed to run through, the rest is the full product.
+_NS = (2, 3, 4, 6, 11)
+_CONTAINERS = ("ndarray", "list", "tuple")
+_FLAVOURS = ("unit", "beyond", "int")
+ARRAY_VARIANTS = [(2, "ndarray", "unit"), (3, "list", "unit"), (4, "tuple", "unit"), (2, "list", "int"),
+                  (2, "tuple", "beyond"), (3, "ndarray", "beyond"), (3, "tuple", "int"), (4, "ndarray", "int"),
+                  (4, "list", "beyond"), (2, "ndarray", "int"), (6, "list", "unit"), (11, "ndarray", "beyond")]
+ARRAY_VARIANTS += [(n, c, f) for f in _FLAVOURS for c in _CONTAINERS for n in _NS if (n, c, f) not in ARRAY_VARIANTS]
 
-    def __init__(self, rng, scale=1.0):
+
+def array_profile(rng, variant, scale):
+    """A valid 2xN profile (first row psi_n knots, strictly increasing and covering [0, 1]; second row
+    values, not monotone) in the requested container / dtype, and its description."""
+    from common import dyadic
+    n, container, flavour = variant
+    if flavour == "int":
+        # integer knots covering [0, 1]: ..., -1, 0, 1, 2, ...
+        lo = -((n - 2) // 2)
+        xs = [lo + k for k in range(n)]
+        ys = [int(round(scale * rng.randint(-4, 4))) for _ in xs]
+        if len(set(ys)) == 1:
+            ys[0] += 3
+    else:
+        if flavour == "unit":
+            ends, inner = [0.0, 1.0], n - 2
+        elif n == 2:
+            ends, inner = [-0.25, 1.5], 0
+        elif n == 3:
+            ends, inner = [-0.25, rng.choice([0.0, 1.0]), 1.5], 0
+        else:
+            ends, inner = [-0.25, 0.0, 1.0, 1.5], n - 4
+        mid = set()
+        while len(mid) < inner:
+            mid.add(dyadic(rng, 0.02, 0.98, 6))
+        xs = sorted(set(ends) | mid)
+        ys = [scale * dyadic(rng, -4, 4, 4) for _ in xs]
+    if container == "ndarray":
+        arg = np.array([xs, ys], dtype=np.int64 if flavour == "int" else np.float64)
+    elif container == "list":
+        arg = [list(xs), list(ys)]
+    else:
+        arg = (tuple(xs), tuple(ys))
+    desc = {"kind": "2xN array", "N": n, "container": container, "flavour": flavour,
+            "dtype": "int" if flavour == "int" else "float", "x": list(xs), "y": list(ys)}
+    return arg, desc
+
+
+class Profile:
+    """A 1-D profile in one of the forms the API accepts (Python function, Function1D object, 2xN
+    array-like), with an independent evaluator: for an array the documented interpolant of the array AS
+    GIVEN (first row psi_n, second row values; cubic, no extrapolation)."""
+
+    def __init__(self, rng, scale=1.0, array_variant=None):
         from common import dyadic
         from raysect.core.math.function.float import Interpolator1DArray
-        self.kind = rng.choice(["pyfunc", "function1d", "array", "array", "constant"])
+        self.kind = "array" if array_variant is not None else rng.choice(["pyfunc", "function1d", "array", "array", "constant"])
+        self.xmin, self.xmax = float("-inf"), float("inf")
         if self.kind == "pyfunc":
             a, b, c = (scale * dyadic(rng, -4, 4, 4) for _ in range(3))
             self.desc = {"kind": "pyfunc", "a": a, "b": b, "c": c}
             self.arg = lambda p, a=a, b=b, c=c: a + b * p + c * p * p
             self.ref = self.arg
-            self.xmax = float("inf")
         elif self.kind == "constant":
             a = scale * dyadic(rng, -4, 4, 4)
             self.desc = {"kind": "constant python function", "a": a}
             self.arg = lambda p, a=a: a
             self.ref = self.arg
-            self.xmax = float("inf")
-        else:
-            n = rng.randint(4, 12)
+        elif self.kind == "function1d":
+            n = rng.randint(2, 12)
             xs = sorted({0.0, 1.0} | {dyadic(rng, 0.02, 0.98, 6) for _ in range(n - 2)})
             ys = [scale * dyadic(rng, -4, 4, 4) for _ in xs]
-            if self.kind == "function1d":
-                xs = xs + [1.5, 40.0]
-                ys = ys + [ys[-1], ys[-1]]
-                self.arg = Interpolator1DArray(np.array(xs), np.array(ys), "cubic", "nearest", 1e6)
-                self.ref = self.arg
-                self.xmax = float("inf")
-                self.desc = {"kind": "Function1D (raysect Interpolator1DArray, cubic)", "x": xs, "y": ys}
-            else:
-                self.arg = np.array([xs, ys])
-                self.ref = Interpolator1DArray(np.array(xs), np.array(ys), "cubic", "none", 0)
-                self.xmax = 1.0
-                self.desc = {"kind": "2xN array", "x": xs, "y": ys}
+            xs = xs + [1.5, 40.0]
+            ys = ys + [ys[-1], ys[-1]]
+            self.arg = Interpolator1DArray(np.array(xs), np.array(ys), "cubic", "nearest", 1e6)
+            self.ref = self.arg
+            self.desc = {"kind": "Function1D (raysect Interpolator1DArray, cubic)", "x": xs, "y": ys}
+        else:
+            if array_variant is None:
+                array_variant = ARRAY_VARIANTS[rng.randrange(len(ARRAY_VARIANTS))]
+            self.arg, self.desc = array_profile(rng, array_variant, scale)
+            given = np.array(self.arg, dtype=np.float64)
+            assert given.shape == (2, array_variant[0]), given.shape
+            self.ref = Interpolator1DArray(given[0, :].copy(), given[1, :].copy(), "cubic", "none", 0)
+            self.xmin, self.xmax = float(given[0, 0]), float(given[0, -1])
+        self.variant = array_variant
 
     def value(self, p):
         """reference value of the profile at p; 0.0 where the profile is not defined (never used there)"""
-        if p > self.xmax or p < 0.0:
+        if p > self.xmax or p < self.xmin:
             return 0.0
         return float(self.ref(p))
 
 
+def rejected_profile_outcomes(eq):
+    """N = 1 is below what the documented interpolant accepts: the expected outcome of every
+    profile-taking entry point is the interpolant's own rejection (ValueError).  Returns
+    (expected exception class name, {entry point: observed outcome})."""
+    from raysect.core.math.function.float import Interpolator1DArray
+    one = [[0.5], [1.0]]
+    try:
+        Interpolator1DArray(np.array(one[0]), np.array(one[1]), "cubic", "none", 0)
+        expected = "accepted"
+    except Exception as e:
+        expected = type(e).__name__
+    ok = lambda p: 1.0
+    calls = {"map2d": lambda: eq.map2d(one), "map3d": lambda: eq.map3d(one),
+             "map_vector2d(toroidal)": lambda: eq.map_vector2d(one, ok, ok),
+             "map_vector2d(poloidal)": lambda: eq.map_vector2d(ok, one, ok),
+             "map_vector2d(normal)": lambda: eq.map_vector2d(ok, ok, one),
+             "map_vector3d(normal)": lambda: eq.map_vector3d(ok, ok, one)}
+    seen = {}
+    for name, fn in calls.items():
+        try:
+            fn()
+            seen[name] = "accepted"
+        except Exception as e:
+            seen[name] = type(e).__name__
+    return expected, seen
+
+
 class ProfileSet:
-    def __init__(self, rng):
+    """One scalar profile + outside value and three velocity profiles + outside vector.  `index` is the
+    running number of the set in this run: even sets force the scalar profile (map2d / map3d) and sets
+    with index % 3 == 1 force all three velocity profiles (map_vector2d / 3d) to the next array variants
+    of ARRAY_VARIANTS, so that every tier walks through the shapes deterministically; the other profiles
+    are drawn at random (functions, Function1D objects, arrays of a random variant)."""
+
+    def __init__(self, rng, index=None):
         from common import dyadic
         from raysect.core import Vector3D
-        self.scalar = Profile(rng)
+        nv = len(ARRAY_VARIANTS)
+        sv = ARRAY_VARIANTS[(index // 2) % nv] if index is not None and index % 2 == 0 else None
+        vv = [ARRAY_VARIANTS[(index + k) % nv] for k in range(3)] if index is not None and index % 3 == 1 else [None] * 3
+        self.scalar = Profile(rng, 1.0, sv)
         self.outside = rng.choice([0.0, dyadic(rng, -8, 8, 4), dyadic(rng, -8, 8, 4)])
         self.default_outside = self.outside == 0.0 and rng.random() < 0.5
-        self.vt, self.vp, self.vn = Profile(rng, 4.0), Profile(rng), Profile(rng)
+        self.vt, self.vp, self.vn = Profile(rng, 4.0, vv[0]), Profile(rng, 1.0, vv[1]), Profile(rng, 1.0, vv[2])
         if rng.random() < 0.3:
             self.outv = None
             self.outv_t = (0.0, 0.0, 0.0)
